@@ -148,11 +148,13 @@ Record smon := mk_smon {
   m_handshake : bool (* still waiting for the reply to the OACK *)
 }.
 
-Record sverdict := mk_sverdict {
-  v_c01 : bool; v_c07 : bool; v_c08 : bool; v_c16 : bool }.
+Record sverdict := mk_sverdict5 {
+  v_c01 : bool; v_c07 : bool; v_c08 : bool; v_c16 : bool;
+  v_c04 : bool (* loss tolerance, sender side: no success before the final block is acknowledged, no giving up inside the retry budget *) }.
+Definition mk_sverdict (a b c d : bool) : sverdict := mk_sverdict5 a b c d true.
 
 Definition vand (a b : sverdict) : sverdict :=
-  mk_sverdict (v_c01 a && v_c01 b) (v_c07 a && v_c07 b) (v_c08 a && v_c08 b) (v_c16 a && v_c16 b).
+  mk_sverdict5 (v_c01 a && v_c01 b) (v_c07 a && v_c07 b) (v_c08 a && v_c08 b) (v_c16 a && v_c16 b) (v_c04 a && v_c04 b).
 Definition vtrue := mk_sverdict true true true true.
 
 Section SendMonitor.
@@ -266,7 +268,8 @@ Section SendMonitor.
                                 && match ending with EndOk => true | _ => false end) true true
             else
               let '(m1, v1) := check_burst m0 (k + 1) ems in
-              vand (vand v1 (mk_sverdict true (negb is_last || match ending with EndOk => false | _ => true end) true true))
+              let not_yet := negb is_last || match ending with EndOk => false | _ => true end in
+              vand (vand v1 (mk_sverdict5 true not_yet true true not_yet))
                    (smon_run m1 evs' bs' ending)
           else
             (* no progress: a transmission needs the timeout; a stale / duplicate / foreign ACK must not end the transfer *)
@@ -281,7 +284,7 @@ Section SendMonitor.
                        && (negb is_last || match ending with EndOk => false | _ => true end) in
             let m0 := mk_smon (m_hi m) (m_acked m) (if sent then 0 else elapsed) fails (m_client m) false in
             let '(m1, v1) := check_burst m0 (m_acked m + 1) ems in
-            vand (vand v1 (mk_sverdict true c07 c08 true)) (smon_run m1 evs' bs' ending)
+            vand (vand v1 (mk_sverdict5 true c07 c08 true c07)) (smon_run m1 evs' bs' ending)
       )
     | [], [] => vtrue
     | [], _ :: _ => mk_sverdict true false true true   (* more receives than the padded script has events *)
